@@ -6,6 +6,7 @@ import (
 	"go/token"
 	"go/types"
 	"regexp"
+	"sort"
 	"strconv"
 	"strings"
 
@@ -102,6 +103,85 @@ func IsLoopHeader(b *ssa.BasicBlock) bool {
 		}
 	}
 	return false
+}
+
+// ReachedAgain reports whether a walk that STARTED at block a comes back to a (takes an edge into
+// it): everything such a walk visits is reachable from a, so any edge into a that it takes closes
+// a cycle through a — the next iteration.  For a loop header this is BackEdgeTaken.
+func ReachedAgain(reach *Reach, a *ssa.BasicBlock) bool {
+	for _, p := range a.Preds {
+		if reach.Blocks[p] && reach.Edges[[2]int{p.Index, a.Index}] {
+			return true
+		}
+	}
+	return false
+}
+
+// inNaturalLoop: a belongs to the natural loop of header h (h dominates a, and a reaches a
+// back-edge source of h without passing h).
+func inNaturalLoop(h, a *ssa.BasicBlock) bool {
+	if !h.Dominates(a) {
+		return false
+	}
+	if h == a {
+		return IsLoopHeader(h)
+	}
+	seen := map[*ssa.BasicBlock]bool{h: true}
+	var work []*ssa.BasicBlock
+	for _, p := range h.Preds {
+		if h.Dominates(p) && !seen[p] {
+			seen[p] = true
+			work = append(work, p)
+		}
+	}
+	for len(work) > 0 {
+		b := work[len(work)-1]
+		work = work[:len(work)-1]
+		if b == a {
+			return true
+		}
+		for _, p := range b.Preds {
+			if !seen[p] {
+				seen[p] = true
+				work = append(work, p)
+			}
+		}
+	}
+	return false
+}
+
+// LoopHeadOf returns the header of the innermost natural loop that contains block a (a itself
+// when it is that header), nil when a is in no loop.
+func LoopHeadOf(a *ssa.BasicBlock) *ssa.BasicBlock {
+	for h := a; h != nil; h = h.Idom() {
+		if IsLoopHeader(h) && inNaturalLoop(h, a) {
+			return h
+		}
+	}
+	return nil
+}
+
+// PrefixBlocks: the blocks control may pass between entering h and reaching a (h included, a
+// excluded; empty when h == a), in index order.  Whatever leaves the loop before a is in it too.
+func PrefixBlocks(h, a *ssa.BasicBlock) []*ssa.BasicBlock {
+	if h == a {
+		return nil
+	}
+	seen := map[*ssa.BasicBlock]bool{a: true}
+	work := []*ssa.BasicBlock{h}
+	var out []*ssa.BasicBlock
+	for len(work) > 0 {
+		b := work[len(work)-1]
+		work = work[:len(work)-1]
+		if seen[b] {
+			continue
+		}
+		seen[b] = true
+		out = append(out, b)
+		work = append(work, b.Succs...)
+	}
+	sort.Slice(out, func(i, j int) bool { return out[i].Index < out[j].Index })
+	return out
 }
 
 // CycleAvoiding reports whether control can leave block from and come back to
